@@ -1036,7 +1036,7 @@ class UKF:
         predicted_measurement_covariance += self.R      # Add measurement noise
 
         # 6. Cross-covariance
-        cross_covariance = np.sum(self.weight_covariance[i] * np.outer(predicted_state_diffs[i][1:], predicted_measurements_diff[i]) for i in range(self.sigma_point_count))
+        cross_covariance = sum(self.weight_covariance[i] * np.outer(predicted_state_diffs[i][1:], predicted_measurements_diff[i]) for i in range(self.sigma_point_count))
 
         # 7. Calculate Kalman gain
         kalman_gain = cross_covariance @ np.linalg.inv(predicted_measurement_covariance)
